@@ -1167,6 +1167,11 @@ func (interp *Interpreter) cfg(root *node, sc *scope, importPath, pkgName string
 			wireChild(n)
 			if len(n.child) > 0 {
 				l := n.lastChild()
+				if l.kind == identExpr && l.tnext == nil && n.anc != nil && (hasForInit(n.anc) || n.anc.kind == rangeStmt) {
+					// The body of the loop is empty: the nodes of its per-iteration loop
+					// variables, which are executed, lead to the body itself.
+					l.tnext = n
+				}
 				n.findex = l.findex
 				n.level = l.level
 				n.val = l.val
